@@ -18,7 +18,6 @@ import datetime as dt
 import itertools
 
 import ndn.encoding as enc
-import ndn.utils as ndn_utils
 from ndn.app_support import security_v2 as sv2
 from ndn.app_support.light_versec import compile_lvs, Checker, lvs_validator, DEFAULT_USER_FNS
 from ndn.security import Sha256WithEcdsaSigner, Sha256WithRsaSigner, DigestSha256Signer, HmacSha256Signer
@@ -78,13 +77,9 @@ class Hierarchy:
         self.kid_base = kid_base
         self.store = {}          # cert name bytes -> wire
         self.nack = set()
-        old = ndn_utils.time
-        ndn_utils.time = Clock()
-        try:
+        with owned_env(clock=Clock(), seed=14):
             with owned_random(('c14', depth, tuple(types), deviation, at, keyset)):
                 self.build(depth, types, deviation, at, keyset, tag)
-        finally:
-            ndn_utils.time = old
 
     def keyname(self, level, types, keyset):
         t = types[level]
@@ -474,17 +469,13 @@ def run_binding(idx, order):
     else:
         text = SCHEMA_BIND
     start = dt.datetime(2024, 1, 1)
-    old = ndn_utils.time
-    ndn_utils.time = Clock()
-    try:
+    with owned_env(clock=Clock(), seed=15):
         with owned_random(('c14-bind', idx)):
             akn = enc.Name.from_str('/t/KEY/%01')
             aname, anchor = sv2.self_sign(akn, pub_der('ec256_0'), signer_for('ec256_0', akn))
             ukn = enc.Name.from_str('/t/user/a/b/KEY/%02')
             uname, ucert = sv2.derive_cert(ukn, 'anchor', pub_der('ec256_1'), signer_for('ec256_0', aname), start, 3600 * 24)
             pkt = bytes(enc.make_data(pname, enc.MetaInfo(freshness_period=1000), b'payload', signer_for('ec256_1', uname)))
-    finally:
-        ndn_utils.time = old
     net = Net()
     try:
         net.stores.append({bytes(enc.Name.to_bytes(uname)): bytes(ucert)})
